@@ -56,9 +56,10 @@ def customDecode (n : String) : Option (Val → Out) :=
   | _ => none
 
 /-- what the decoder makes of one field: its YAML key looked up in the mapping; a missing or null key leaves the zero value
-    (a field without a YAML key — `yaml:"-"`, or the inlined extension map — is not read here) -/
+    (a `yaml:"-"` field is not read).  The inlined extension map is read like any other field, under its tag name
+    `#extensions` — the key under which `processExtensions` (`procExt` below) has gathered the `x-` attributes -/
 def fieldDecoded (dec : TyExpr → Val → Out) (zero : TyExpr → Val) (t : List (String × Val)) (fd : FieldDesc) : Out :=
-  if fd.yamlSkip || fd.yamlInline then .ok (zero fd.ty)
+  if fd.yamlSkip then .ok (zero fd.ty)
   else match Val.lookup fd.yamlKey t with
     | none => .ok (zero fd.ty)
     | some .null => .ok (zero fd.ty)
@@ -114,5 +115,26 @@ def decode (env : Env) : Nat → TyExpr → Val → Out
 
 /-- entry point -/
 def load (env : Env) (ty : String) (t : Val) : Out := decode env 60 (.named ty) t
+
+/-! ## extension attributes — `loader.processExtensions` -/
+
+/-- `strings.HasPrefix(key, "x-")` -/
+def isExtKey (k : String) : Bool := "x-".toList.isPrefixOf k.toList
+
+/-- `processExtensions` below the user-defined sections: in every mapping the `x-` attributes are gathered under
+    `#extensions`, the other values are processed recursively (mappings, and mappings inside lists) -/
+def procExt : Nat → Val → Val
+  | 0, v => v
+  | f + 1, .map kvs =>
+    let ext := kvs.filter fun p => isExtKey p.1
+    let rest := (kvs.filter fun p => !isExtKey p.1).map fun p => (p.1, procExt f p.2)
+    .map (rest ++ (if ext.isEmpty then [] else [("#extensions", .map ext)]))
+  | f + 1, .seq xs => .seq (xs.map fun x => match x with
+      | .map kvs => procExt f (.map kvs)
+      | x => x)
+  | _ + 1, v => v
+
+/-- entry point: `processExtensions` then the generic decoding -/
+def loadExt (env : Env) (ty : String) (t : Val) : Out := decode env 60 (.named ty) (procExt 60 t)
 
 end CV.Decode
